@@ -250,6 +250,71 @@ def run(ctx, rep):
             rep.check(ok, 'R-C08-6', '%s: %s' % (base(f.name), c.callee), c.loc(), 'result tested' if ok else 'result of %s is ignored' % c.callee, function=base(f.name), construct='ignored %s' % c.callee)
             rep.analysed(f)
 
+    full_transfer_rule(P, rep)
+
+def full_transfer_rule(P, rep, rid='R-C08-7'):
+    """partial transfers are never success: a block write is accepted only when the byte count returned equals the
+    count requested; a block read treats <0 and 0 as errors and loops until the wanted size is accumulated"""
+    rep.rule(rid, 'block transfer primitives: a write succeeds only if the returned count equals the requested count; a read fails on <0 and on 0 and accumulates until the wanted size', 7)
+    def local_of(f, call):
+        for u in f.users.get(call.id, ()):
+            if u.op == 'store':
+                return f.expr(u.ops[1]).lstrip('&')
+        return None
+    def succ_true(t): return t.ops[2][1]
+    def succ_false(t): return t.ops[1][1]
+    for fn, prim, kind in (('handle_write', 'pwrite', 'w'), ('parity_write', 'pwrite', 'w'), ('sflush', 'write', 'w'), ('handle_read', 'pread', 'r'), ('parity_read', 'pread', 'r')):
+        f = P.fn(fn)
+        rep.analysed(f)
+        cs = list(f.calls(prim))
+        if len(cs) != 1:
+            raise AnalysisBroken('%s: expected one %s call, found %d' % (fn, prim, len(cs)))
+        c = cs[0]
+        var = local_of(f, c)
+        if var is None:
+            rep.fail(rid, '%s: result of %s' % (fn, prim), c.loc(), 'the byte count returned by %s is not kept' % prim, function=fn, construct='%s result' % prim)
+            continue
+        want = f.expr(c.ops[2])
+        brs = []
+        for b in range(len(f.blocks)):
+            t = f.term(b)
+            if t.op == 'br' and len(t.ops) == 3:
+                ci = f.inst_of(t.ops[0])
+                if ci is not None and ci.op == 'icmp' and var in (f.expr(ci.ops[0]), f.expr(ci.ops[1])) and c.id in f.reach([f.entry()], include_start=True) and t.id in f.reach([c]):
+                    brs.append((t, ci))
+        if kind == 'w':
+            ok = False; det = 'no comparison of %s with the requested count %s' % (var, want)
+            for t, ci in brs:
+                other = f.expr(ci.ops[1]) if f.expr(ci.ops[0]) == var else f.expr(ci.ops[0])
+                if other == want and ci.pred in ('eq', 'ne'):
+                    bad_edge = succ_true(t) if ci.pred == 'ne' else succ_false(t)
+                    good_edge = succ_false(t) if ci.pred == 'ne' else succ_true(t)
+                    # the unequal outcome never continues as success: it cannot reach the success continuation
+                    r = f.reach([f.blocks[bad_edge][0]], include_start=True)
+                    ok = f.blocks[good_edge][0].id not in r and bad_edge != good_edge
+                    det = '%s %s %s; unequal outcome %s' % (var, ci.pred, want, 'fails' if ok else 'continues as success')
+            rep.check(ok, rid, '%s: %s returning a short count is an error' % (fn, prim), c.loc(), det, function=fn, construct='short %s' % prim)
+        else:
+            acc = [i for i in f.all_insts() if i.op == 'store' and f.inst_of(i.ops[0]) is not None and f.inst_of(i.ops[0]).op == 'add' and var in f.expr(i.ops[0])]
+            neg = [(t, ci) for t, ci in brs if ci.pred == 'slt' and f.const_of(ci.ops[1]) == 0]
+            zero = [(t, ci) for t, ci in brs if ci.pred == 'eq' and f.const_of(ci.ops[1]) == 0]
+            okn = bool(acc) and bool(neg) and all(acc[0].id not in f.reach([f.blocks[succ_true(t)][0]], include_start=True, stop={c.id}) for t, _ in neg)
+            okz = bool(acc) and bool(zero) and all(acc[0].id not in f.reach([f.blocks[succ_true(t)][0]], include_start=True, stop={c.id}) for t, _ in zero)
+            rep.check(okn and okz, rid, '%s: %s < 0 and == 0 are errors (never accumulated)' % (fn, prim), c.loc(), 'negative handled: %s; end of file handled: %s' % (okn, okz), function=fn, construct='%s error results' % prim)
+            h = f.loop_of(c.block)
+            okl = False; det = 'the read is not inside a loop'
+            if h is not None and acc:
+                cnt = f.expr(acc[0].ops[1]).lstrip('&')
+                for b in f.loops[h]:
+                    t = f.term(b)
+                    if t.op == 'br' and len(t.ops) == 3 and h in (succ_true(t), succ_false(t)) or (t.op == 'br' and len(t.ops) == 3 and any(s_ not in f.loops[h] for s_ in (succ_true(t), succ_false(t)))):
+                        ci = f.inst_of(t.ops[0])
+                        if ci is not None and ci.op == 'icmp' and ci.pred in ('ult', 'slt') and f.expr(ci.ops[0]) == cnt:
+                            cont = succ_true(t)
+                            okl = cont in f.loops[h]
+                            det = 'loop continues while %s < %s' % (cnt, f.expr(ci.ops[1]))
+            rep.check(okl, rid, '%s: reads are accumulated until the wanted size' % fn, c.loc(), det, function=fn, construct='%s loop' % prim)
+
 
 def _reach_blocks(f, b, L):
     seen = set()
